@@ -10,7 +10,7 @@
    [snapshot] walks it as scope.Snapshot() does; [trun] is the flat reference
    tally. *)
 From Coq Require Import ZArith List Bool Permutation.
-From Tally Require Import Base.Obs Model.Buckets Proof.BucketsP Model.Snapshot Proof.SnapshotP.
+From Tally Require Import Base.ObsCore Model.Buckets Proof.BucketsP Model.Snapshot Proof.SnapshotP.
 Import ListNotations.
 Open Scope Z_scope.
 
